@@ -181,3 +181,9 @@ mutant('c12-failed-cast-is-fatal','C12','runInstruction',X,'''			return value.Ne
 V='homescript/runtime/vm.go'
 mutant('c12-host-arguments-may-convert','C12','SpawnSync',V,'		_, interrupt := value.DeepCast(arg, param.Type, errors.Span{}, false)','		_, interrupt := value.DeepCast(arg, param.Type, errors.Span{}, true)',2)
 print("done 3")
+o,n = infunc(S,'func (self *Analyzer) triggerStatement','''	if self.currentModule.CurrentFunction == nil {
+		// outside of any function (e.g. in the initializer of a global), there is no current function to compare with
+		callbackFn.Used = true
+	} else if self.currentModule.CurrentFunction.FnType.Kind() == normalFunctionKind {''','''	if self.currentModule.CurrentFunction.FnType.Kind() == normalFunctionKind {''')
+mutant('c05-trigger-outside-a-function','C05','triggerStatement',S,o,n)
+print("done 4")
